@@ -71,6 +71,79 @@ def dispatch_checks(ck, tier):
             ck.oblig("C10.combine.dispatch", "E", "failed", detail=bad)
             ck.violation("C10.combine.dispatch", "combine:" + key[:80], "combine_cnf_with_requests: " + bad,
                          dict(function="sweetpea._internal.core.generate.utility:combine_cnf_with_requests", input=dict(support=s, requests=reqs, cnf=init)))
+    # ---- two requests over the SAME variable list in one formula, every ordered pair of relations and thresholds of different bit lengths
+    # (a later request must not be affected by circuits an earlier one left in the formula)
+    t2 = time.time()
+    n2 = 6
+    vs2 = list(range(1, n2 + 1))
+    ks = [1, 2, 4, 5] if tier == "quick" else [0, 1, 2, 3, 4, 5, 6, 7]
+    bad2 = None
+    npairs = 0
+    for (kd1, k1), (kd2, k2) in itertools.product(itertools.product(rel, ks), repeat=2):
+        grs = [LowLevelRequest(kd1, k1, list(vs2)).to_generation_request(), LowLevelRequest(kd2, k2, list(vs2)).to_generation_request()]
+        try:
+            cnf = combine_cnf_with_requests(CNF(), n2, n2, grs)
+        except Exception as e:
+            bad2 = bad2 or ((kd1, k1, kd2, k2), f"raised {e!r}")
+            continue
+        clauses = [[int(v) for v in cl] for cl in cnf]
+        aux = sorted({abs(l) for c in clauses for l in c if abs(l) > n2})
+        npairs += 1
+        for bits in itertools.product([False, True], repeat=n2):
+            cnt = sum(bits)
+            want = rel[kd1](cnt, k1) and rel[kd2](cnt, k2)
+            ms = N.models_under(clauses, [v if b_ else -v for v, b_ in zip(vs2, bits)], aux, limit=2)
+            if bool(ms) != want or (want and len(ms) != 1):
+                bad2 = bad2 or ((kd1, k1, kd2, k2), f"assignment {bits} (count {cnt}): {len(ms)} satisfying extension(s), expected {'exactly one' if want else 'none'}")
+                break
+        ck.count(("same-list", kd1, k1, kd2, k2))
+    ck.oblig("C10.combine.same_list(all pairs)", "E", "passed" if bad2 is None else "failed", "pycryptosat", time.time() - t2,
+             f"{npairs} ordered pairs of requests over one list of {n2} variables x all assignments")
+    if bad2 is not None:
+        (kd1, k1, kd2, k2), why = bad2
+        ck.violation("C10.combine.same_list", f"same-list:{kd1}{k1}:{kd2}{k2}", f"requests '{kd1} {k1}' then '{kd2} {k2}' over the same {n2} variables in one formula: {why}",
+                     dict(function="sweetpea._internal.core.generate.utility:combine_cnf_with_requests", input=dict(support=n2, requests=[[kd1, k1, vs2], [kd2, k2, vs2]], cnf=[])))
+    # ---- large variable lists (beyond the per-shape proofs): the real clauses under fully specified inputs, around every power of two up to 1024
+    t3 = time.time()
+    sizes = sorted({m for p_ in range(5, 11) for m in (2 ** p_ - 1, 2 ** p_, 2 ** p_ + 1)} | {100, 300, 1000}) if tier == "quick" else \
+        sorted({m for p_ in range(5, 13) for m in (2 ** p_ - 1, 2 ** p_, 2 ** p_ + 1, 2 ** p_ + 2)} | {100, 300, 769, 1000, 3000})
+    bad3 = None
+    nlarge = 0
+    for n3 in sizes:
+        vs3 = list(range(1, n3 + 1))
+        for kind in rel:
+            for k in sorted({0, 1, 5, n3 // 2, n3 - 1, n3}):
+                try:
+                    cnf = combine_cnf_with_requests(CNF(), n3, n3, [LowLevelRequest(kind, k, list(vs3)).to_generation_request()])
+                except Exception as e:
+                    bad3 = bad3 or ((kind, n3, k), f"raised {e!r}")
+                    continue
+                clauses = [[int(v) for v in cl] for cl in cnf]
+                used = {abs(l) for c in clauses for l in c}
+                decided = (kind == "LT" and k > n3) or (kind == "GT" and k >= n3) or (kind == "EQ" and k > n3)      # trivially true / false requests need not mention every variable
+                if not set(vs3) <= used and not decided:
+                    bad3 = bad3 or ((kind, n3, k), f"{len(set(vs3) - used)} of the {n3} variables occur in no clause, e.g. {sorted(set(vs3) - used)[:6]}")
+                    continue
+                aux = sorted(v for v in used if v > n3)
+                pats = []
+                for c_true in sorted({0, 1, k - 1, k, k + 1, n3} & set(range(0, n3 + 1))):
+                    pats.append(set(vs3[:c_true]))                      # first c_true variables
+                    pats.append(set(vs3[n3 - c_true:]))                 # last c_true variables
+                    pats.append(set(rng.sample(vs3, c_true)))           # scattered
+                for tset in pats:
+                    want = rel[kind](len(tset), k)
+                    ms = N.models_under(clauses, [v if v in tset else -v for v in vs3], aux, limit=1)
+                    nlarge += 1
+                    if bool(ms) != want:
+                        bad3 = bad3 or ((kind, n3, k), f"{len(tset)} true variables ({sorted(tset)[:5]}...): satisfiable={bool(ms)}, expected {want}")
+                        break
+                ck.count(("large", kind, n3, k))
+    ck.oblig("C10.large(spot checks)", "E", "passed" if bad3 is None else "failed", "pycryptosat", time.time() - t3,
+             f"n in {sizes[:4]}..{sizes[-1]} ({len(sizes)} sizes) x 3 relations x 6 thresholds x fully specified inputs ({nlarge} solves)")
+    if bad3 is not None:
+        (kind, n3, k), why = bad3
+        ck.violation("C10.large", f"large:{kind}:{n3}:{k}", f"'{kind} {k}' over {n3} variables: {why}",
+                     dict(function="sweetpea._internal.core.generate.utility:combine_cnf_with_requests", input=dict(support=n3, requests=[[kind, k, "1..n"]], cnf=[])))
     ck.solver_s["pycryptosat"] += time.time() - t
     ck.oblig("C10.combine.dispatch(all cases)", "E", "passed" if not any(v["obligation"].startswith("C10.combine") for v in ck.viol) else "failed",
              "pycryptosat", time.time() - t, f"{len(cases)} request lists x all assignments of the support")
